@@ -364,3 +364,28 @@ def gen_misc(rng):
                 r2[0:4] = u32(tot)
                 out.append(sweep(bytes(r2)))
     return out
+
+
+def gen_elfname(rng, tier):
+    """ELFNAME: section names through the string table the tag designates (harness-owned external table)"""
+    out = []
+    words = [b"", b".text", b".data", b".bss", b".rodata", "grüß".encode(), b"\xff\xfe", b"\xc3", b".shstrtab"]
+    for es in (40, 64):
+        for n in (0, 1, 2, 3, 4):
+            for present in sorted(set([n, max(0, n - 1), n + 1])):
+                for shndx in range(0, n + 3):
+                    strtab = b"\0"
+                    offs = []
+                    for _ in range(max(1, present)):
+                        w = rng.choice(words)
+                        offs.append(len(strtab))
+                        strtab += w + b"\0"
+                    ents = b""
+                    for i in range(present):
+                        e = bytearray(elf_entry(rng, es, rng.choice([1, 1, 2, 3, 8, 0, 0x60000000, 0x7FFFFFFF])))
+                        e[0:4] = u32(rng.choice(offs + [0, len(strtab) - 1, 1]))
+                        ents += bytes(e)
+                    out.append("ELFNAME %d %d %d %s %s" % (es, n, shndx, hx(ents), hx(strtab)))
+    for es in (0, 39, 41, 48, 63, 65):
+        out.append("ELFNAME %d 1 0 %s %s" % (es, hx(rbytes(rng, 64)), hx(b"\0abc\0")))
+    return out
